@@ -19,7 +19,8 @@ import time
 REPO = os.environ.get("VERIF_REPO", "/repo")
 CACHE = os.environ.get("VERIF_CACHE", "/var/tmp/asynq-verif-cache")
 PY = "/venv/bin/python"
-MAX_CACHE = 6
+MAX_CACHE = 12
+MIN_AGE = 3600  # never prune an entry used within the last hour (another check may be importing from it)
 
 
 def _source_files(repo):
@@ -64,8 +65,10 @@ def _prune_cache():
         return
     ents = [e for e in ents if os.path.isdir(e) and not os.path.basename(e).startswith("tmp")]
     ents.sort(key=lambda e: os.path.getmtime(e))
+    now = time.time()
     for e in ents[:-MAX_CACHE]:
-        shutil.rmtree(e, ignore_errors=True)
+        if now - os.path.getmtime(e) > MIN_AGE:
+            shutil.rmtree(e, ignore_errors=True)
     # stale tmp dirs (older than 1h)
     for e in os.listdir(CACHE):
         p = os.path.join(CACHE, e)
